@@ -35,6 +35,43 @@ class Replica:
         self.pkg = pkg
         self.mods = mods
         self._caches = None
+        self._containers = self._snapshot_containers()
+
+    # -- any other process-global mutable state -----------------------------------------------------------
+    def _snapshot_containers(self):
+        """Every dict / list / set held in a module global or class attribute of the package, with a shallow copy of its
+        import-time content.  reset() puts that content back, so that a hand-rolled cache (a plain dict, not an
+        lru_cache) cannot carry state from one run to the next either."""
+        out = []
+        seen = set()
+
+        def note(owner, name, v):
+            if isinstance(v, (dict, list, set)) and id(v) not in seen and not name.startswith('__'):
+                seen.add(id(v))
+                out.append((f'{owner}.{name}', v, v.copy()))
+
+        for mname in sorted(self.mods):
+            m = self.mods[mname]
+            for attr in sorted(vars(m)):
+                v = vars(m)[attr]
+                note(mname, attr, v)
+                if isinstance(v, type) and getattr(v, '__module__', '').startswith('bitstring'):
+                    for a2 in sorted(vars(v)):
+                        note(f'{mname}.{attr}', a2, vars(v)[a2])
+        return out
+
+    def restore_containers(self):
+        for name, obj, snap in self._containers:
+            if isinstance(obj, dict):
+                if obj != snap or list(obj) != list(snap):
+                    obj.clear()
+                    obj.update(snap)
+            elif isinstance(obj, list):
+                if obj != snap:
+                    obj[:] = snap
+            elif obj != snap:
+                obj.clear()
+                obj.update(snap)
 
     # -- cache seam (S5) -------------------------------------------------------------------------------
     def caches(self):
@@ -119,6 +156,7 @@ class Replica:
         """Bring every process-global piece of state to a fixed point: makes a run a function of its seed."""
         self.reset_options()
         self.clear_caches()
+        self.restore_containers()
 
 
 _main = None
